@@ -49,6 +49,7 @@ Stateful == /\ nops < MaxOps /\ nops' = nops + 1
             /\ \E n \in Targets :
                  \/ "visit" \in Kinds /\ VisitTreeA(n) /\ UNCHANGED <<st, internal>>
                  \/ "cached" \in Kinds /\ HashCachedA(n) /\ UNCHANGED <<st, internal>>
+                 \/ "insert" \in Kinds /\ IsPairNode(tbl[n]) /\ InsertA(n) /\ UNCHANGED <<st, internal>>
                  \/ "novisit" \in Kinds /\ HashNoVisitA(n) /\ internal' = TRUE /\ UNCHANGED st
 \* calls that neither read nor write the shared cache: checked once per table, on a fresh history
 \* (the harness additionally runs them at the end of every replayed history)
